@@ -664,6 +664,7 @@ def handwritten():
     P.append((("foreach", (("match", AB), ("optional", (("match", lit("c")),)), ("loop", None, (("match", lit("a")), ("optional", (("match", lit(";")), ("break", None)))))), (n1, ("hook", "g"))), ("match", lit("d")), ("hook", "h")))
     # greedy cases: priorities between action-only, empty and consuming bodies that tie on the same last byte
     m1, m2, m3 = ("set", "m", ("num", 1)), ("set", "m", ("num", 2)), ("set", "m", ("num", 3))
+    g0 = len(P)
     P.append((("case", True, ((2, (lit("ab"),), (m1,)), (1, (re_("a", "[ab]"),), (m2, ("match", lit("c")))))), ("hook", "h"), ("match", lit("d"))))
     P.append((("case", True, ((1, (lit("ab"),), (m1,)), (2, (re_("a", "[ab]"),), (m2, ("match", lit("c")))))), ("hook", "h"), ("match", lit("d"))))
     P.append((("case", True, ((3, (lit("ab"),), ()), (2, (re_("a", "[ab]"),), (m2, ("hook", "g"))), (1, (re_("[ab]", "b"),), (m3, ("match", lit("c")))))), ("hook", "h"), ("match", lit("d"))))
@@ -674,7 +675,7 @@ def handwritten():
     P.append((("loop", None, (("case", True, ((None, (lit("a"),), (m1,)), (None, (lit("abc"),), (m2,)))),)),))
     P.append((("loop", None, (("case", True, ((None, (lit("a"),), (m1,)), (None, (lit("abc"),), (m2,)), (None, (lit("d"),), (("break", None),)))), ("hook", "h"))), ("hook", "g"), ("match", lit("c"))))
     # ... and the same with the first observation only after the next match (a hook right after the case constrains scheduling)
-    for k in range(len(P) - 6, len(P)):
+    for k in range(g0, len(P)):
         prog = P[k]
         if prog[0][0] == "case" and prog[1:] == (("hook", "h"), ("match", lit("d"))):
             P.append((prog[0], ("match", lit("d")), ("hook", "h")))
